@@ -61,7 +61,11 @@ fn main() {
         std::process::exit(props::c17::miri_scenario());
     }
     // case watchdog: generous (cases are sub-second); VERIF_CASE_DEADLINE_S overrides. C05/C17 have their own finer watchdogs.
-    let dl: u64 = std::env::var("VERIF_CASE_DEADLINE_S").ok().and_then(|s| s.parse().ok()).unwrap_or(if cfg.quick() { 420 } else { 1500 });
+    let dl: u64 = std::env::var("VERIF_CASE_DEADLINE_S").ok().and_then(|s| s.parse().ok()).unwrap_or({
+        // pure-arithmetic checks run micro-second cases; the others run whole HE pipelines (up to seconds at large N)
+        let fast = matches!(id.as_str(), "C08" | "C09" | "C10" | "C11" | "C13" | "C15" | "C16");
+        match (fast, cfg.quick()) { (true, true) => 120, (true, false) => 600, (false, true) => 420, (false, false) => 1500 }
+    });
     rt::start_case_watchdog(id.clone(), cfg.clone(), verif_dir.clone(), std::time::Duration::from_secs(dl));
     let mut report = rt::Report::new();
     let meta = match props::dispatch(&id, &cfg, &mut report) {
